@@ -104,6 +104,17 @@ func (t jtx) render(order int, dupKey string) string {
 	if dupKey == "input.type" {
 		input += `,"type":"` + t.typ + `"`
 	}
+	if dupKey == "transfer.wrap" || dupKey == "transfer.wrap-int64" {
+		// outputs whose sum equals the input only modulo 2^64
+		x, _ := new(big.Int).SetString(t.amount, 10)
+		if x != nil && x.IsInt64() && x.Int64() < 1<<40 && t.conv == "" {
+			big1, big2, last := "9223372036854775808", "9223372036854775808", x.String()
+			if dupKey == "transfer.wrap-int64" {
+				big1, big2, last = "9223372036854775807", "9223372036854775807", new(big.Int).Add(x, big.NewInt(2)).String()
+			}
+			t.outs = [][2]string{{t.addr, big1}, {t.addr, big2}, {t.addr, last}}
+		}
+	}
 	if dupKey == "input.extra" {
 		input += `,"extra":1`
 	}
@@ -162,7 +173,7 @@ func (t jtx) render(order int, dupKey string) string {
 	return "{" + body + "}"
 }
 
-var dupKinds = []string{"", "", "", "", "input.missing-type", "input.missing-type-dup", "input.amount", "input.address", "input.type", "input.extra", "transfer.amount", "transfer.extra", "tx.input", "tx.conversion", "tx.transfers", "tx.transfers-null", "tx.conversion-empty", "tx.extra", "tx.both",
+var dupKinds = []string{"", "", "", "", "input.missing-type", "input.missing-type-dup", "input.amount", "input.address", "input.type", "input.extra", "transfer.amount", "transfer.extra", "transfer.wrap", "transfer.wrap-int64", "tx.input", "tx.conversion", "tx.transfers", "tx.transfers-null", "tx.conversion-empty", "tx.extra", "tx.both",
 	"batch.version", "batch.transactions", "batch.extra", "batch.metadata", "case.version", "case.transactions", "case.input", "case.amount", "unicode.key", "neither", "two-inputs", "unknown-ticker", "unknown-conv", "ws"}
 
 func (g *c20gen) batch() (string, string) {
